@@ -350,7 +350,7 @@ class Result:
 
 
 def tv_part(res, fams, count, seed, tier, name, min_events=None, label_filter=None, adopt=None,
-            recorder=None):
+            recorder=None, spec="Trace"):
     """Trace validation of `count` scenarios of each family."""
     d = workdir("%s_%s" % (res.prop, name))
     if recorder:
@@ -359,7 +359,7 @@ def tv_part(res, fams, count, seed, tier, name, min_events=None, label_filter=No
         trace, scnf = record(fams, seed, tier, count, d)
     scns = load_scenarios(scnf)
     counts = event_counts(trace)
-    out = tlc_trace(trace, os.path.join(d, "meta"))
+    out = tlc_trace(trace, os.path.join(d, "meta"), spec=spec)
     findings = load_findings()
     for hit in out["mons"]:
         res.add_hit(hit, scns.get((hit["fam"], hit["id"])), findings, adopt=adopt)
@@ -1159,3 +1159,165 @@ def check_C13(res, tier, seed):
 
 
 CHECKS["C13"] = (check_C13, "translation_validation")
+
+
+def check_C20(res, tier, seed):
+    import random
+    build_harness()
+    d = workdir("C20_twice")
+    findings = load_findings()
+    fams = ["solve", "configs", "iterate", "optimise", "assume", "clauses", "cumulative", "reif"]
+    count = n(tier, 8, 250)
+    # (1) library runs: the same scenarios in two fresh processes (different ASLR / hash seeds)
+    t1, s1 = record(fams, seed, tier, count, d, name="a")
+    t2, s2 = record(fams, seed, tier, count, d, name="b")
+    env = {"TRACE": t1, "TRACE2": t2, "JAVA_TOOL_OPTIONS": "-Xss1g -Xmx8g"}
+    md = os.path.join(d, "meta")
+    rc, out, dt = sh(["tlc", "-workers", "1", "-metadir", md, "-cleanup", "-noGenerateSpecTE",
+                      "-config", "Determinism.cfg", "Determinism.tla"], cwd=SPEC, env=env, timeout=2400,
+                     check=False)
+    scns = load_scenarios(s1)
+    accepted = None
+    states = 0
+    nh = 0
+    for line in out.splitlines():
+        line = line.strip()
+        if line.startswith('"MONJ ') or line.startswith('"ENDJ '):
+            inner = json.loads(line)
+            payload = json.loads(inner[5:])
+            if inner.startswith("MONJ"):
+                nh += 1
+                if nh <= 20:
+                    res.add_hit(payload, scns.get((payload["fam"], payload["id"])), findings)
+            else:
+                accepted = payload["accepted"]
+        m = re.match(r"(\d+) states generated", line)
+        if m:
+            states = int(m.group(1))
+    if accepted is None:
+        raise ToolError("TLC gave no verdict on the two traces:\n" + out[-2000:])
+    shutil.rmtree(md, ignore_errors=True)
+    res.cov["states"] += states
+    res.cov["transitions"] += max(states - 1, 0)
+    res.cov["traces_validated_against_impl"] += 2 * len(scns)
+    res.cov["evaluations"] += len(scns)
+    res.cov["distinct_nontrivial"] += len(scns)
+    res.cov["parts"].append({"part": "library-two-processes", "scenarios": len(scns), "events_compared": states - 1,
+                             "tlc_wall_s": round(dt, 1)})
+    for key in list(scns)[:2]:
+        res.cov["samples"].append({"scenario": scns[key]})
+    # (2) command-line runs: output, statistics (minus wall-clock ones) and proof bytes, run twice
+    build_cli()
+    import fzn
+    rng = random.Random(seed * 31 + 20)
+    fd = workdir("C20_files")
+    nd = 0
+    ncli = 0
+
+    def norm(text):
+        keep = []
+        for line in text.splitlines():
+            low = line.lower()
+            if "time" in low or "seconds" in low or " ms" in low:
+                continue                      # wall-clock derived statistics are excluded
+            keep.append(line)
+        return "\n".join(keep)
+
+    def twice(path, flags, proof=None):
+        nonlocal nd, ncli
+        outs = []
+        for _ in range(2):
+            fl = list(flags)
+            pp = None
+            if proof:
+                pp = path + ".proof"
+                fl += ["--proof-path", pp]
+            so, se, rc = run_cli(path, fl, timeout=60)
+            pb = ""
+            if pp and os.path.exists(pp):
+                pb = open(pp, errors="replace").read()
+                os.remove(pp)
+                lp = pp.replace(".proof", ".lits")
+                for extra in (lp, os.path.splitext(pp)[0] + ".lits"):
+                    if os.path.exists(extra):
+                        pb += open(extra, errors="replace").read()
+                        os.remove(extra)
+            outs.append((norm(so), rc, pb))
+        ncli += 1
+        if outs[0] != outs[1]:
+            nd += 1
+            hit = {"mon": "C20.CliSameOutput", "fam": "cli", "id": ncli, "i": ncli,
+                   "w": json.dumps({"flags": flags, "a": outs[0][0][-300:], "b": outs[1][0][-300:]})[:900]}
+            res.add_hit(hit, None, findings, extra={"file": open(path).read()})
+
+    for i in range(n(tier, 25, 250)):
+        nv, clauses = random_cnf(rng, 10, tier)
+        p = os.path.join(fd, "c%d.cnf" % i)
+        open(p, "w").write(cnf_layouts(nv, clauses, rng)[0][1])
+        twice(p, ["-s", "-r", str(rng.randint(0, 99))], proof=True)
+        os.remove(p)
+        nv, hard, soft, unw = random_wcnf(rng, tier)
+        p = os.path.join(fd, "w%d.wcnf" % i)
+        open(p, "w").write(wcnf_text(nv, hard, soft, rng))
+        twice(p, ["-s", "-r", str(rng.randint(0, 99))])
+        os.remove(p)
+        text, desc, outspec = fzn.generate(rng, tier)
+        p = os.path.join(fd, "m%d.fzn" % i)
+        open(p, "w").write(text)
+        twice(p, ["-s", "-a", "-r", str(rng.randint(0, 99))] + rng.choice([[], ["-f"]]), proof=rng.random() < 0.5)
+        os.remove(p)
+    res.cov["traces_validated_against_impl"] += 2 * ncli
+    res.cov["evaluations"] += ncli
+    res.cov["distinct_nontrivial"] += ncli
+    res.cov["parts"].append({"part": "cli-twice", "runs": 2 * ncli, "differences": nd})
+    res.cov["explanation"] = ("two-run hyper-property: (1) the complete hook-event streams of the same scenarios recorded in "
+                              "two fresh processes are consumed in lock-step by TLC (spec/Determinism.tla) and must be "
+                              "equal event by event; (2) CNF/WCNF/FlatZinc files are run twice through the real binary with "
+                              "-s and a seed, and output, statistics (without wall-clock ones) and proof bytes are compared")
+    res.cov["rule"] = res.cov["explanation"]
+
+
+CHECKS["C20"] = (check_C20, "other")
+
+
+def check_C16(res, tier, seed):
+    # (1) the exact arithmetic the oracle computes with: BigInt.tla against TLC's native integers
+    #     (where those suffice) and hand-computed values beyond 32 bits (ASSUMEs of MC_BigInt)
+    mc_part(res, "MC_BigInt", "MC_BigInt", label="C16.MC.BigInt")
+    # (2) point queries at the 32-bit boundaries, decided by BigHolds inside TLC
+    count = n(tier, 1100, 11000)
+    out, counts = tv_part(res, ["big"], count, seed, tier, "bigpoints", spec="BigTrace",
+                          min_events={"Point": count * 3, "Bounds": count})
+    d = os.path.join(WORK, "C16_bigpoints")
+    by = collections.Counter()
+    kinds = collections.Counter()
+    with open(os.path.join(d, "t.ndjson")) as f:
+        for line in f:
+            e = json.loads(line)
+            if e["e"] == "Point":
+                by["point_" + e["res"]] += 1
+            elif e["e"] == "Return":
+                by["satisfy_" + e["res"]] += 1
+            elif e["e"] == "PostEnd":
+                by["post_ok" if e["ok"] else "post_failed"] += 1
+            elif e["e"] == "Post":
+                kinds[e["c"]["k"]] += 1
+    res.cov["answers"] = dict(by)
+    res.cov["constraint_kinds"] = dict(kinds)
+    for need in ("point_SAT", "point_UNSAT_UA", "post_failed", "satisfy_SAT"):
+        if by[need] < count // 50:
+            raise ToolError("vacuity guard: only %d %s answers in the big family" % (by[need], need))
+    res.cov["rule"] = ("every answer of the library at a total point (satisfy_under_assumptions with x = v for every "
+                       "variable), every root bound, every returned solution and every UNSAT verdict is compared "
+                       "with the constraint's meaning evaluated in exact sign+limb arithmetic (BigInt.tla) inside "
+                       "TLC; magnitudes 46340..2^31-1, overflow-checked build so that a wrapped intermediate is a "
+                       "recorded panic")
+    res.assumptions.append("views whose own values (scale*x+offset over the variable's range) leave the i32 range "
+                           "are outside the admitted inputs; -2^31 itself is not used as a bound (negation of a "
+                           "bound must be representable)")
+    res.assumptions.append("a scenario that does not finish within the watchdog limit is reported as C16x.SlowOrHung "
+                           "(bounds propagation over 2^30 values may converge one value at a time); termination is "
+                           "not part of C16")
+
+
+CHECKS["C16"] = (check_C16, "exploration")
